@@ -20,6 +20,8 @@ Model driver for C03 (pattern matching and unpacking). Stateful line protocol:
       (regs = registers 0..nvars-1, then the subject locals 99, 98, …; unassigned = sU)
   ma (<tgt>*) <val>|(g <val>*)     multi-assignment; tgt := <n> | _ ; response `<regs> = <value>`
   mt (<tgt>*) <val>*               multi-assignment from a temporary tuple
+  mas (<tgt>*) <val>*              multi-assignment from a stateful source yielding the values;
+                                   response `<regs> ; (t <values still to come>)`
   for (<tgt>*) <val>               response: registers at every body entry, `|`-separated
 -/
 import KotoVerif.Common.Proto
@@ -295,6 +297,13 @@ def step (st : St) (line : String) : St × String :=
            match multiAssign tg v env0 with
            | none => (st, "E:iter")
            | some (ρ, r) => (st, s!"{regsStr n 0 ρ} = {valStr r}"))
+  | .atom "mas" :: .list ts :: vals =>
+    -- stateful source: registers after the assignment, then what the source still yields
+    (match parseTgts ts, vals.mapM parseVal with
+     | some tg, some vs =>
+       let (ρ, rest) := assignSt tg vs env0
+       (st, s!"{regsStr (maxTgt tg) 0 ρ} ; {valStr (.tuple rest)}")
+     | _, _ => (st, "bad-request"))
   | .atom "mt" :: .list ts :: vals =>
     (match parseTgts ts, vals.mapM parseVal with
      | some tg, some vs =>
